@@ -550,6 +550,59 @@ fn walk(bytes: &[u8]) -> String {
         }
         format!("ok:{}", bits(&mut v.into_iter()))
     });
+    // ---- round 5: lookups tied to C01/LModel.v — by_addr().count(), then the POSITION (in list order) of the element each
+    // address lookup returns, at the six probe addresses of the first eight elements; get_thread by id
+    fn pos<T>(all: &[&T], found: Option<&T>) -> String {
+        match found {
+            None => "-1".to_string(),
+            Some(x) => all.iter().position(|y| std::ptr::eq(*y, x)).map(|i| i.to_string()).unwrap_or_else(|| "?".to_string()),
+        }
+    }
+    simple!("AM", MinidumpMemoryList, |l| {
+        let all: Vec<&MinidumpMemory> = l.iter().collect();
+        let mut v = vec![l.by_addr().count().to_string()];
+        for r in all.iter().take(8) {
+            for a in probe_addrs(r.base_address, r.size) {
+                v.push(pos(&all, l.memory_at_address(a)));
+            }
+        }
+        format!("ok:{}", v.join(":"))
+    });
+    simple!("AL", MinidumpModuleList, |l| {
+        let all: Vec<&MinidumpModule> = l.iter().collect();
+        let mut v = vec![l.by_addr().count().to_string()];
+        for m in all.iter().take(8) {
+            for a in probe_addrs(m.raw.base_of_image, m.raw.size_of_image as u64) {
+                v.push(pos(&all, l.module_at_address(a)));
+            }
+        }
+        format!("ok:{}", v.join(":"))
+    });
+    simple!("AI", MinidumpMemoryInfoList, |l| {
+        let all: Vec<&MinidumpMemoryInfo> = l.iter().collect();
+        let mut v = vec![l.by_addr().count().to_string()];
+        for r in all.iter().take(8) {
+            for a in probe_addrs(r.raw.base_address, r.raw.region_size) {
+                v.push(pos(&all, l.memory_info_at_address(a)));
+            }
+        }
+        format!("ok:{}", v.join(":"))
+    });
+    simple!("A6", MinidumpMemory64List, |l| {
+        let all: Vec<&MinidumpMemory64> = l.iter().collect();
+        let mut v = vec![l.by_addr().count().to_string()];
+        for r in all.iter().take(8) {
+            for a in probe_addrs(r.base_address, r.size) {
+                v.push(pos(&all, l.memory_at_address(a)));
+            }
+        }
+        format!("ok:{}", v.join(":"))
+    });
+    simple!("TG", MinidumpThreadList, |tl| {
+        let all: Vec<&MinidumpThread> = tl.threads.iter().collect();
+        let v: Vec<String> = all.iter().take(8).map(|t| pos(&all, tl.get_thread(t.raw.thread_id))).collect();
+        if v.is_empty() { "ok".to_string() } else { format!("ok:{}", v.join(":")) }
+    });
     f.join(";")
 }
 
